@@ -394,7 +394,10 @@ def power_divergence(X, Y, Z, data, boolean=True, lambda_="cressie-read", **kwar
                 c, _, d, _ = stats.chi2_contingency(contingency, lambda_=lambda_)
                 chi += c
                 dof += d
-        p_value = 1 - stats.chi2.cdf(chi, df=dof)
+        # With 0 degrees of freedom (no stratum has at least two states of both X
+        # and Y) the statistic is 0 and the chi-square cdf is undefined; the data
+        # has no evidence against independence (same as stats.chi2_contingency).
+        p_value = 1 - stats.chi2.cdf(chi, df=dof) if dof > 0 else 1.0
 
     # Step 4: Return the values
     if boolean:
